@@ -302,11 +302,40 @@ def sig_matches(sig, desc):
 # --------------------------------------------------------------------------- orchestration
 
 
+class ShardTimeout(BaseException):
+    pass
+
+
+# A shard that runs this long is stuck (a whole quick check takes minutes): the run is reported as
+# inconclusive (harness error, exit 2) - never as a violation, and never left hanging.
+SHARD_LIMIT_S = {"quick": 3600, "thorough": 6 * 3600}
+
+
 def _run_shard(args):
     modname, spec, seed, tier, active = args
+    import signal
+
+    def on_alarm(signum, frame):
+        raise ShardTimeout()
+
+    old = None
     try:
-        return _run_shard_inner(modname, spec, seed, tier, active)
+        try:
+            old = signal.signal(signal.SIGALRM, on_alarm)
+            signal.alarm(SHARD_LIMIT_S.get(tier, 3600))
+        except (ValueError, AttributeError):
+            old = None      # not in the main thread / no SIGALRM: run without the watchdog
+        try:
+            return _run_shard_inner(modname, spec, seed, tier, active)
+        except ShardTimeout:
+            return {"harness_error": f"{spec}: shard exceeded {SHARD_LIMIT_S.get(tier, 3600)} s (inconclusive)"}
     finally:
+        try:
+            signal.alarm(0)
+            if old is not None:
+                signal.signal(signal.SIGALRM, old)
+        except (ValueError, AttributeError):
+            pass
         env.cleanup_now()
 
 
@@ -321,6 +350,8 @@ def _run_shard_inner(modname, spec, seed, tier, active):
         return res
     except HarnessError as e:
         return {"harness_error": f"{spec}: {e}\n{traceback.format_exc()}"}
+    except ShardTimeout:
+        raise
     except BaseException as e:  # noqa: BLE001
         tb = traceback.extract_tb(e.__traceback__)
         frames = [f for f in tb if f.filename.startswith(env.LIB + os.sep)]
